@@ -31,10 +31,14 @@ func (api *API) mapEncode(ctx context.Context, value reflect.Value, ts TypeSetti
 		}
 	}
 
-	serializable, ok := valueI.(SerializableJSON)
-	if !ok {
-		// a custom codec that is implemented on the pointer type is also used for a value that is held directly (see encode)
-		serializable, ok = addressOf(value).(SerializableJSON)
+	// (an interface value is handled by mapEncodeInterface, see encode)
+	var serializable SerializableJSON
+	ok := false
+	if valueType.Kind() != reflect.Interface {
+		if serializable, ok = valueI.(SerializableJSON); !ok {
+			// a custom codec that is implemented on the pointer type is also used for a value that is held directly (see encode)
+			serializable, ok = addressOf(value).(SerializableJSON)
+		}
 	}
 
 	if ok {
